@@ -88,8 +88,9 @@ def dirArgRef (start : Bytes) (rpath : List Name) : Bytes × Option Bytes :=
   | n :: up => (46 :: 47 :: n, some (pathOf start up))
   | [] =>
     let p := start
-    ((match FuModel.Path.fileName p with
-      | some f => 46 :: 47 :: f
+    -- (the last component as written, `..` included: in the parent directory `./..` names `dir/..`)
+    ((match FuModel.Path.lastComponent p with
+      | some f => FuModel.Path.join [46] f
       | none => FuModel.Path.join [46] p),
      (match FuModel.Path.parent p with
       | none => some p
